@@ -8,7 +8,9 @@ unallocated address, more allocations than the node can hold), created and recei
 create-and-keep / receive path, 1-2 pairs, matching or unmatched, receiver full, creator nearly full, receive
 before anything was sent), then StopApp on both nodes in either order; a half delivered to the peer may be
 received and measured after the creator has stopped.  Messages are built by hand (Init, OpenEPRSocket,
-Subroutine..., StopApp), no Signal(STOP).
+Subroutine..., StopApp), no Signal(STOP).  40% of the cases use nodes whose REGISTER limit (1-3) is below the
+qubit capacity, so that qalloc (and, rarely, pair creation) is refused by the register limit at any point of an
+application; an address the node refused is allocated again later (`retry` steps).
 
 Oracle (independent of the Lean model), per node:
   * across one generation (before the node's InitNewApp .. after its StopApp): the factory's qubitList has the
@@ -16,6 +18,11 @@ Oracle (independent of the Lean model), per node:
   * when both applications of a generation have stopped and no half is waiting: simulated qubits = held qubits
     network-wide and a node without simulated qubits has no register;
   * a single `qfree` removes exactly one held qubit, un-maps exactly that address, keeps every other mapping;
+  * after every local subroutine (they are straight-line) the unit module maps exactly the addresses the
+    application holds by our own account (qalloc / qfree executed before the failing line; a refused qalloc holds
+    nothing), and the used physical addresses are exactly the mapped ones (`alloc-bookkeeping`);
+  * an address whose qalloc the node refused can be allocated as soon as the node has room for a qubit and a
+    register (`address-not-reusable`);
   * the creator's StopApp changes nothing at the peer (held qubits, receive queue), and a half delivered before
     it is still received and measured afterwards.
 A leak is classed by how it arose: `epr-failure-leaks-temporaries` (F13: a create_epr / recv_epr subroutine that
@@ -23,7 +30,10 @@ was answered with an error after it had created or claimed qubits) or `stop-leav
 
 Tie: every message of both nodes goes to the Lean driver `nqexec` (one model instance per node; deliveries to the
 peer appear as `arrive` inputs), replies / token-level operation trace / unit module / qubitList / held / receive
-queue / leaked count compared verbatim."""
+queue / leaked count compared verbatim.  The model's node has no register limit: a plain qalloc refused by it is
+shown to the driver as an instruction that raises without effect (nqcase.Runner._tie_prog; the tie then demands
+exact roll-back on every later message); any other register-limit refusal (pair creation, merge of two remote
+registers) takes the node out of the tie from that message on, the oracle above still judges it."""
 import random
 
 from .. import core
@@ -54,6 +64,8 @@ ASSUMPTIONS = [
     "node but by no application and is subtracted (receive-queue length) before comparing with the baseline",
     "the virtual address given to a pair is free when the pair is delivered and the result array is long enough "
     "(otherwise netqasm polls forever; explicit `blocked` / `unmodelled` in the model, not generated)",
+    "the node's register limit is not in the Lean model (NqExec.Node has `cap` only): refusals by it are judged by "
+    "the oracle and enter the tie as an observed failing instruction (plain qalloc) or end the node's tie (other)",
 ]
 
 NAMES = ["Alice", "Bob"]
@@ -69,6 +81,7 @@ class Gen:
 
     def __init__(self, rng, runner, cap):
         self.rng, self.r, self.cap = rng, runner, cap
+        self.retry = {n: [] for n in NAMES}      # addresses whose qalloc the node refused, free as far as WE know
 
     def free_addrs(self, node):
         um = self.r.unit_module(node) or []
@@ -86,9 +99,19 @@ class Gen:
             kinds += ["gates"] * 2 + ["free"] * 2 + ["free1"] * 2 + ["bad-gate", "bad-addr"]
         if len(free) >= 2:
             kinds += ["overflow"]
+        if self.retry[node]:
+            kinds += ["retry"] * 4
         if not kinds:
             return None, None
         k = rng.choice(kinds)
+        if k == "retry":
+            # the address the node refused is allocated again, mostly after a qubit was given back (whether that
+            # also gives a register back depends on the gates so far); judged in `do` from the node's room
+            v = self.retry[node].pop(rng.randrange(len(self.retry[node])))
+            lines = []
+            if used and rng.random() < 0.6:
+                lines += ["set Q1 %d" % rng.choice(used), "qfree Q1"]
+            return k, "\n".join(lines + ["set Q0 %d" % v, "qalloc Q0"])
         if k == "alloc":
             n = rng.randrange(1, min(3, len(free)) + 1)
             vs = rng.sample(free, n)
@@ -134,11 +157,29 @@ class Gen:
         return None, None
 
 
+def track(prog, upto, mine):
+    """our own view of which virtual addresses a straight-line LOCAL subroutine leaves allocated: `mine` after the
+    first `upto` instructions (all of them succeeded; the next one, if any, raised and must have changed nothing)"""
+    regs = {}
+    mine = set(mine)
+    for i in prog[:upto]:
+        m = i.mnemonic
+        if m == "set":
+            regs[nqcase._reg(i.reg)] = i.imm.value
+        elif m == "qalloc":
+            mine.add(regs[nqcase._reg(i.reg)])
+        elif m == "qfree":
+            mine.discard(regs[nqcase._reg(i.reg)])
+    return mine, regs
+
+
 def run_case(case, gen_rng=None, res=None):
     """case = {seed, cap, maxq, gens: [[step, ...], ...]}; a step is [node, kind, ...].  With gen_rng the steps
     are generated and recorded.  -> (violations [(key, what, (generation, step index))], runner)"""
     cap = case["cap"]
-    runner = nqcase.Runner(NAMES, cap, random.Random(case["seed"]))
+    runner = nqcase.Runner(NAMES, cap, random.Random(case["seed"]), max_regs=case.get("regs"))
+    mine = {n: None for n in NAMES}       # addresses the node's application holds, as WE know (None: unknown)
+    used0 = {n: set() for n in NAMES}     # physical addresses already marked used when the application started
     node_id = runner.node_id
     viol = []
     gens_out = []
@@ -163,7 +204,9 @@ def run_case(case, gen_rng=None, res=None):
             where = (gi, len(steps) if gen_rng is not None else si)
             if kind == "init":
                 active[node] = step[2]
+                mine[node] = set()
                 rec = runner.send(node, "init", app=step[2], maxq=step[3])
+                used0[node] = set(runner.executor(node)._used_physical_qubit_addresses)
                 if [x[0] for x in rec["replies"]] != ["MsgDoneMessage"]:
                     add("init-reply", "InitNewApp(app %d) on %s answered %s" % (step[2], node, [x[0] for x in rec["replies"]]), where)
                 return rec
@@ -173,6 +216,9 @@ def run_case(case, gen_rng=None, res=None):
                 before_peer = runner.counts(peer)
                 rec = runner.send(node, "stop", app=active[node])
                 stopped[node] = True
+                mine[node] = None
+                if g is not None:
+                    g.retry[node] = []
                 after_peer = runner.counts(peer)
                 if [x[0] for x in rec["replies"]] != ["MsgDoneMessage"]:
                     add("stop-reply", "StopApp on %s answered %s (%s)" % (node, [x[0] for x in rec["replies"]],
@@ -191,12 +237,58 @@ def run_case(case, gen_rng=None, res=None):
             before = runner.counts(node)
             um_before = list(runner.unit_module(node) or [])
             ql_before = sorted(runner.nq.facs[node].qubitList)
+            nd = runner.nq.nodes[node]
             rec = runner.send(node, "sub", app=app, body=step[3], note=sub)
             if not rec["quiescent"]:
                 add("hang", "%s did not become quiescent after a %s subroutine" % (node, sub), where)
             failed = "ErrorMessage" in [x[0] for x in rec["replies"]]
             if res is not None:
                 res.count("sub:%s:%s" % (sub, "error" if failed else "ok"))
+                for cause, _ign in rec["refused"]:
+                    res.count("new-qubit-refused:%s:%s" % ("pair" if sub in ("create", "recv") else "qalloc", cause))
+            # ---- our own account of the unit module (local subroutines are straight-line)
+            um_now = list(runner.unit_module(node) or [])
+            mapped = set(i for i, p in enumerate(um_now) if p is not None)
+            if sub in ("create", "recv"):
+                mine[node] = None if (failed or mine[node] is None) else mapped
+            elif mine[node] is not None:
+                at = runner.failing_line(rec) if failed else len(rec["prog"])
+                if at is None:
+                    mine[node] = None
+                else:
+                    mine[node], regs = track(rec["prog"], at, mine[node])
+                    if mapped != mine[node] and not f13[node]:
+                        extra = sorted(mapped - mine[node])
+                        add("alloc-bookkeeping", "%s after a %s subroutine%s: the unit module maps addresses %s, the "
+                            "application holds %s%s" % (node, sub, " that failed at line %d" % at if failed else "",
+                                                       sorted(mapped), sorted(mine[node]),
+                                                       " (no qubit behind %s: %s not in qubitList)" % (extra, [um_now[v] for v in extra])
+                                                       if any(um_now[v] not in runner.nq.facs[node].qubitList for v in extra) else ""), where)
+                    used_now = set(runner.executor(node)._used_physical_qubit_addresses)
+                    phys = set(p for p in um_now if p is not None)
+                    if mapped == mine[node] and used_now != phys | used0[node] and not f13[node]:
+                        add("alloc-bookkeeping", "%s after a %s subroutine%s: physical addresses marked used %s, mapped by "
+                            "the unit module %s%s" % (node, sub, " that failed at line %d" % at if failed else "",
+                                                      sorted(used_now), sorted(phys),
+                                                      ", left over from earlier applications (F13) %s" % sorted(used0[node])
+                                                      if used0[node] else ""), where)
+                    if failed and rec["refused"] and rec["prog"][at].mnemonic == "qalloc" and g is not None:
+                        v = regs.get(nqcase._reg(rec["prog"][at].reg))
+                        if v is not None and v not in g.retry[node]:
+                            g.retry[node].append(v)      # refused by the NODE (qubit or register limit): try again later
+            if g is not None and mine[node] is not None:
+                g.retry[node] = [v for v in g.retry[node] if v not in mine[node]]
+            if sub == "retry" and failed and mine[node] is not None and not f13[node]:
+                # a refused qalloc changes nothing at the virtual node, so the node's room now is the room the
+                # qalloc found; our own account says the address is free
+                at = runner.failing_line(rec)
+                now = runner.counts(node)
+                v = int(step[3].split("\n")[-2].split()[2])
+                if (at == len(rec["prog"]) - 1 and v not in mine[node] and now["virt"] < nd.maxQubits
+                        and nd.numRegs < nd.maxRegs):
+                    add("address-not-reusable", "%s: qalloc of address %d fails (%s) although the application does not "
+                        "hold that address and the node has room (%d of %d qubits, %d of %d registers)"
+                        % (node, v, [e[:80] for e in rec["errors"]][:1], now["virt"], nd.maxQubits, nd.numRegs, nd.maxRegs), where)
             if sub in ("create", "recv") and failed and any(o[0] in ("new", "claim") for o in rec["ops"]):
                 f13[node] = True
             if sub == "free1" and not failed:
@@ -245,6 +337,7 @@ def run_case(case, gen_rng=None, res=None):
                     free = g.free_addrs(n)
                     if free:
                         room = (runner.counts(n)["virt"] + 2 <= cap) and (runner.counts(peer)["virt"] + 1 <= cap)
+                        room = room and runner.nq.nodes[n].numRegs + 2 <= runner.nq.nodes[n].maxRegs   # two fresh qubits
                         if room or rng.random() < 0.12:   # mostly when both ends have room (else: F13 class)
                             choices += ["create"] * 3
                         if pending[n] > 0:
@@ -358,6 +451,14 @@ FIXED = [
         [["Alice", "init", 0, 4], ["Alice", "sub", "overflow", "set Q0 2\nqalloc Q0\nset Q0 3\nqalloc Q0\nset Q0 0\nqalloc Q0"],
          ["Alice", "sub", "free1", "set Q0 3\nqfree Q0"], ["Alice", "stop"]],
         [["Alice", "init", 0, 2], ["Alice", "sub", "alloc", "set Q0 0\nqalloc Q0\nset Q0 1\nqalloc Q0"], ["Alice", "stop"]]]},
+    # register limit 1 below the qubit capacity 3: the second qalloc is refused by the REGISTER limit; the refused
+    # address is allocated after the first qubit was given back; stop with a refusal as the last thing; next generation
+    {"seed": 3, "cap": 3, "regs": 1, "gens": [
+        [["Alice", "init", 0, 3], ["Alice", "sub", "overflow", "set Q0 0\nqalloc Q0\nset Q0 1\nqalloc Q0"],
+         ["Alice", "sub", "retry", "set Q1 0\nqfree Q1\nset Q0 1\nqalloc Q0"],
+         ["Alice", "sub", "overflow", "set Q0 2\nqalloc Q0"], ["Alice", "stop"]],
+        [["Alice", "init", 1, 2], ["Alice", "sub", "alloc", "set Q0 1\nqalloc Q0\ninit Q0"], ["Alice", "sub", "free1", "set Q0 1\nqfree Q0"],
+         ["Alice", "sub", "alloc", "set Q0 0\nqalloc Q0"], ["Alice", "stop"]]]},
 ]
 
 
@@ -367,6 +468,13 @@ def run(ctx):
     res.rule = ("one case = fresh 2-node network (capacity 2-5 per node), 1-5 generations; per generation each node "
                 "runs one application of 2-8 random steps (local alloc/gates/free/failing subroutines, create / receive "
                 "of 1-2 pairs incl. unmatched, receiver full, bad address, receive time-out), stops in any order; "
+                "40% of the cases on nodes with register limit 1-3 below the qubit capacity (qalloc / pair creation "
+                "refused by the register limit at any point, later re-allocation of the refused address, StopApp); "
+                "the Lean model's node has no register limit: a plain qalloc refused by it is shown to the driver as an "
+                "instruction that raises without effect (the tie then demands exact roll-back on every later message), "
+                "any other register-limit refusal (pair creation, merge) takes the node out of the tie from that "
+                "message on -- oracle only (every message answered, counts back to baseline, unit module = the "
+                "addresses the application holds, refused address re-usable); "
                 "plus the fixed F13 witness; non-trivial = some qubit was created; distinct by step list")
     rng = ctx.rng
     all_lines = []
@@ -374,8 +482,12 @@ def run(ctx):
 
     def handle(case, viol, runner):
         made = any("new:" in w for n in NAMES for (_l, w, _d) in runner.lines[n])
-        res.case({"cap": case["cap"], "gens": case["gens"]}, nontrivial=made)
+        res.case({k: case[k] for k in ("cap", "regs", "gens") if k in case}, nontrivial=made)
         res.count("cases")
+        if case.get("regs") is not None:
+            res.count("cases:register-limit")
+        res.count("tie:refusal-shown-as-failing-instruction", runner.substituted)
+        res.count("tie:messages-oracle-only", sum(runner.untied.values()))
         res.count("generations", len(case["gens"]))
         res.count("messages", sum(len(s) for s in case["gens"]))
         for key, what, _w in viol:
@@ -401,6 +513,8 @@ def run(ctx):
         n = ctx.scale(450, 6000)
         for _ in range(n):
             case = {"seed": rng.randrange(1 << 30), "cap": rng.choice([2, 3, 3, 4, 5]), "ngens": rng.randrange(1, 6)}
+            if rng.random() < 0.4:
+                case["regs"] = rng.randrange(1, min(3, case["cap"] - 1) + 1)
             viol, runner = run_case(case, gen_rng=random.Random(rng.randrange(1 << 30)), res=res)
             case.pop("ngens", None)
             handle(case, viol, runner)
